@@ -167,6 +167,12 @@ theorem rle01Add_expand (l : List Item01) (t : Int) (n : Nat) (x : Int) :
       simp only [rle01Add, expand] at ih ⊢
       rw [ih]; simp
 
+theorem locate_expandFrom_zero (d s : Int) (i k : Nat) (rest : List (Int × Nat)) (f : Nat) :
+    locate (expandFrom d s 0 i k ++ rest) f = locate rest f := by
+  induction k generalizing i with
+  | zero => simp [expandFrom]
+  | succ k ih => simp [expandFrom, locate, ih]
+
 theorem locate_expandFrom (d s : Int) (n : Nat) (hn : 0 < n) (i k : Nat) (rest : List (Int × Nat)) (f : Nat) :
     locate (expandFrom d s n i k ++ rest) f =
       if f < k * n then some (d + ((i + f / n : Nat) : Int) * s, f % n) else locate rest (f - k * n) := by
@@ -200,9 +206,10 @@ theorem item01_tell (it : Item01) (hn : 0 < it.numFrames) (f : Nat) :
            else (f - it.totalFrames, none)) := by
   unfold Item01.tellLrForFrame
   have hn0 : it.numFrames ≠ 0 := by omega
+  simp only [hn0, if_false]
   by_cases hlt : f < it.totalFrames
   · have hle : f ≤ it.totalFrames := by omega
-    simp only [hle, hlt, if_true, hn0, if_false]
+    simp only [hle, hlt, if_true]
     have hdiv : f / it.numFrames ≤ it.pos.rep := by
       unfold Item01.totalFrames at hlt
       have : f / it.numFrames < it.pos.rep + 1 := by
@@ -217,7 +224,7 @@ theorem item01_tell (it : Item01) (hn : 0 < it.numFrames) (f : Nat) :
     · simp [hr]
   · by_cases heq : f = it.totalFrames
     · subst heq
-      simp only [Nat.le_refl, if_true, hn0, if_false, Nat.lt_irrefl, Nat.sub_self]
+      simp only [Nat.le_refl, if_true, Nat.lt_irrefl, if_false, Nat.sub_self]
       unfold Item01.totalFrames RItem.value
       have h1 : it.numFrames * (it.pos.rep + 1) / it.numFrames = it.pos.rep + 1 := Nat.mul_div_cancel_left _ hn
       have h2 : it.numFrames * (it.pos.rep + 1) % it.numFrames = 0 := Nat.mul_mod_right _ _
@@ -226,25 +233,30 @@ theorem item01_tell (it : Item01) (hn : 0 < it.numFrames) (f : Nat) :
       simp [this, hlt]
 
 /-- **RLE, lookup**: `RLEType01.tellLrForFrame` finds the record that holds frame `f` and the offset in it, for every
-table whose records all have at least one frame. -/
-theorem rle01Tell_locate (l : List Item01) (hpos : ∀ it ∈ l, 0 < it.numFrames) (f : Nat) :
+table; records without frames are passed over. -/
+theorem rle01Tell_locate (l : List Item01) (f : Nat) :
     rle01Tell l f = (match locate (expand l) f with | some r => .ok r | none => .error .indexError) := by
   induction l generalizing f with
   | nil => simp [rle01Tell, expand, locate]
   | cons it its ih =>
-    have hn := hpos it (List.mem_cons_self ..)
-    have hrest : ∀ it' ∈ its, 0 < it'.numFrames := fun it' h => hpos it' (List.mem_cons_of_mem _ h)
     simp only [rle01Tell, expand]
-    rw [item01_tell it hn f]
-    unfold Item01.expand
-    rw [locate_expandFrom _ _ _ hn]
-    have htot : it.totalFrames = (it.pos.rep + 1) * it.numFrames := by unfold Item01.totalFrames; ring
-    by_cases hlt : f < it.totalFrames
-    · have hlt' : f < (it.pos.rep + 1) * it.numFrames := by omega
-      simp [hlt, hlt']
-    · have hlt' : ¬ f < (it.pos.rep + 1) * it.numFrames := by omega
-      simp only [hlt, hlt', if_false]
-      rw [ih hrest, htot]
+    by_cases hn0 : it.numFrames = 0
+    · have : it.tellLrForFrame f = .ok (f, none) := by simp [Item01.tellLrForFrame, hn0]
+      rw [this]
+      unfold Item01.expand
+      rw [hn0, locate_expandFrom_zero]
+      exact ih f
+    · have hn : 0 < it.numFrames := by omega
+      rw [item01_tell it hn f]
+      unfold Item01.expand
+      rw [locate_expandFrom _ _ _ hn]
+      have htot : it.totalFrames = (it.pos.rep + 1) * it.numFrames := by unfold Item01.totalFrames; ring
+      by_cases hlt : f < it.totalFrames
+      · have hlt' : f < (it.pos.rep + 1) * it.numFrames := by omega
+        simp [hlt, hlt']
+      · have hlt' : ¬ f < (it.pos.rep + 1) * it.numFrames := by omega
+        simp only [hlt, hlt', if_false]
+        rw [ih, htot]
 
 theorem expand_total (l : List Item01) : rle01Total l = ((expand l).map (·.2)).sum := by
   have hfrom : ∀ (d s : Int) (n i k : Nat), ((expandFrom d s n i k).map (·.2)).sum = k * n := by
